@@ -70,6 +70,13 @@ Definition match_block_start (trimmed : bytes) : bool :=
   | None => false
   end.
 
+(* ")" optionally followed by blanks and a // comment *)
+Definition block_close (trimmed : bytes) : bool :=
+  match trimmed with
+  | 41 :: rest => let r := trim_start rest in beq r [] || starts_with [47; 47] r
+  | _ => false
+  end.
+
 Fixpoint sum_line_starts (ls : list bytes) : N := match ls with [] => 0 | l :: t => blen l + 1 + sum_line_starts t end.
 
 Fixpoint go_loop (all : list bytes) (ls : list bytes) (num : nat) (in_block : bool) : list pkg :=
@@ -78,12 +85,12 @@ Fixpoint go_loop (all : list bytes) (ls : list bytes) (num : nat) (in_block : bo
   | line :: rest =>
       let trimmed := trim line in
       if beq trimmed [] || starts_with [47; 47] trimmed then go_loop all rest (S num) in_block
-      else if in_block && beq trimmed [41] then go_loop all rest (S num) false
+      else if in_block && block_close trimmed then go_loop all rest (S num) false
       else if match_block_start trimmed then go_loop all rest (S num) true
       else
         let line_start := sum_line_starts (firstn num all) in
         if in_block then
-          match match_require_spec line with
+          match match_require_spec (trim_end line) with
           | Some (m, v, off) =>
               mkPkg m v None (line_start + off) (line_start + off + blen v) (N.of_nat num) off None :: go_loop all rest (S num) in_block
           | None => go_loop all rest (S num) in_block
